@@ -250,7 +250,6 @@ impl Context for Plain {
         // both cases.
         let resource = prefix.to_string() + "_" + suffix + ".resource";
         let register = prefix.to_string() + ".md";
-        let tag = "```geodesy:".to_string() + suffix + "\n";
 
         for path in &self.paths {
             // Is it in a separate file?
@@ -265,19 +264,10 @@ impl Context for Plain {
             let mut full_path = path.clone();
             full_path.push(section);
             full_path.push(&register);
-            if let Ok(mut result) = std::fs::read_to_string(full_path) {
-                result = result.replace('\r', "\n");
-                let Some(mut start) = result.find(&tag) else {
-                    continue;
-                };
-                start += tag.len();
-                let Some(length) = result[start..].find("```") else {
-                    // Search for end-of-item reached end-of-file
-                    let result = result[start..].trim().to_string();
-                    return Ok(result);
-                };
-                let result = result[start..start + length].trim().to_string();
-                return Ok(result);
+            if let Ok(result) = std::fs::read_to_string(full_path) {
+                if let Some(item) = register_item(&result, suffix) {
+                    return Ok(item);
+                }
             }
         }
 
@@ -316,6 +306,48 @@ impl Context for Plain {
             .unwrap()
             .get_grid(name, &self.paths)
     }
+}
+
+/// Extract the item `name` from the text of a register, i.e. the content of the
+/// Markdown code block identified as `geodesy:name`. A code block starts at a line
+/// consisting of a fence of 3 or more backticks followed by the identifier, and ends
+/// at a line consisting of a fence of at least the same length (or at the end of the
+/// file). Backticks elsewhere (e.g. in a comment) are plain text - and so is an item
+/// *quoted* inside a block with a longer fence, for documentation purposes.
+fn register_item(register: &str, name: &str) -> Option<String> {
+    let tag = "geodesy:".to_string() + name;
+    let register = register.replace('\r', "\n");
+    let mut item = String::new();
+    let mut fence = 0; // Length of the fence opening the current block. 0: not in a block
+    let mut wanted = false; // Is the current block the item we are looking for?
+    for line in register.lines() {
+        let text = line.trim();
+        let ticks = text.len() - text.trim_start_matches('`').len();
+        if fence == 0 {
+            // The identifier of a block cannot contain backticks (that is inline code)
+            if ticks >= 3 && !text[ticks..].contains('`') {
+                fence = ticks;
+                wanted = text[ticks..].trim() == tag;
+            }
+            continue;
+        }
+        if ticks >= fence && ticks == text.len() {
+            if wanted {
+                break;
+            }
+            fence = 0;
+            continue;
+        }
+        if wanted {
+            item += line;
+            item += "\n";
+        }
+    }
+    // Note: the search for end-of-item may have reached end-of-file
+    if wanted {
+        return Some(item.trim().to_string());
+    }
+    None
 }
 
 // ----- T E S T S ------------------------------------------------------------------
